@@ -1,2 +1,192 @@
-(* C28 placeholder; statements follow *)
+(* C28 — the Redis peer store round-trips every announced peer.
+   Statements only; every proof is `exact <lemma from Proof/C28*.v>`.
+   The model is the store with the repaired decoder (fixes/C28_ipv6_decode.patch); the decoder
+   of the pinned commit is [deserialize_old] / [get_full_old]. *)
+From Coq Require Import List NArith ZArith Bool.
 From K.Model Require Import C28.
+From K.Proof Require C28_codec C28_store C28.
+Import ListNotations.
+Local Open Scope Z_scope.
+
+(* ---- the encoding: any 20-byte id, ANY address byte string (IPv4, IPv6, host name, anything
+   else, ':' included, empty included), any int port, either flag ---- *)
+Theorem C28_codec_roundtrip : forall p,
+  valid_peer p = true -> deserialize (serialize p) = Some p.
+Proof. exact Proof.C28_codec.roundtrip. Qed.
+Print Assumptions C28_codec_roundtrip.
+
+(* two different peers never share a set member *)
+Theorem C28_serialize_injective : forall p q,
+  valid_peer p = true -> valid_peer q = true -> serialize p = serialize q -> p = q.
+Proof. exact Proof.C28_codec.serialize_inj. Qed.
+Print Assumptions C28_serialize_injective.
+
+(* the repair reads every entry the pinned decoder could read, identically (entries already
+   in Redis stay valid) *)
+Theorem C28_backcompat : forall s r, deserialize_old s = Some r -> deserialize s = Some r.
+Proof. exact Proof.C28_codec.backcompat. Qed.
+Print Assumptions C28_backcompat.
+
+(* key names: distinct (info hash, window) pairs never collide *)
+Theorem C28_key_injective : forall h w h' w',
+  forallb byte_ok h = true -> forallb byte_ok h' = true ->
+  key_string h w = key_string h' w' -> h = h' /\ w = w'.
+Proof. exact Proof.C28_codec.key_string_inj. Qed.
+Print Assumptions C28_key_injective.
+
+(* ---- time windows (Go's truncated %, any clock value incl. before 1970) ---- *)
+(* `visible` (the specification's notion of "still within reach") is exactly: the window the
+   announcement was written to is one of the windows GetPeers looks at *)
+Theorem C28_visible_is_window : forall c t0 t,
+  1 <= W c -> (In (curw c t0) (windows c t) <-> visible c t0 t = true).
+Proof. exact Proof.C28_store.visible_iff. Qed.
+Print Assumptions C28_visible_is_window.
+
+Theorem C28_retention : forall c t0 t,
+  cfg_ok c = true -> t0 <= t -> t <= t0 + (Z.of_nat (M c) - 1) * W c -> visible c t0 t = true.
+Proof. exact Proof.C28_store.retention. Qed.
+Print Assumptions C28_retention.
+
+Theorem C28_forgotten : forall c t0 t,
+  cfg_ok c = true -> 0 <= t0 -> t0 + Z.of_nat (M c) * W c <= t -> visible c t0 t = false.
+Proof. exact Proof.C28_store.forgotten. Qed.
+Print Assumptions C28_forgotten.
+
+(* the EXPIREAT the store sets never removes a key a reader can still reach, and (clock after
+   1970) removes it at the first moment no reader can *)
+Theorem C28_expiry_not_early : forall c t0 t,
+  cfg_ok c = true -> visible c t0 t = true -> t < expire_at c (curw c t0).
+Proof. exact Proof.C28_store.expiry_not_early. Qed.
+Print Assumptions C28_expiry_not_early.
+
+Theorem C28_expiry_tight : forall c t0 t,
+  cfg_ok c = true -> 0 <= t0 -> t0 <= t -> visible c t0 t = false -> expire_at c (curw c t0) <= t.
+Proof. exact Proof.C28_store.expiry_tight. Qed.
+Print Assumptions C28_expiry_tight.
+
+(* ---- one identity seen several times (same or different windows): one entry, complete iff
+   any occurrence was complete ---- *)
+Theorem C28_collapse : forall l i c,
+  In (i, c) (collapse l) <-> (exists c0, In (i, c0) l) /\ (c = true <-> In (i, true) l).
+Proof. exact Proof.C28_store.collapse_spec. Qed.
+Print Assumptions C28_collapse.
+
+Theorem C28_collapse_nodup : forall l, nodup_ident (collapse l) = true.
+Proof. exact Proof.C28_store.collapse_nodup. Qed.
+Print Assumptions C28_collapse_nodup.
+
+(* ---- the store, over every history of clock steps, announcements and reads, from any start
+   time: a read that is not cut short by n returns exactly the announcements within reach —
+   same id, address, port; one entry per identity; complete iff one of them was ---- *)
+Theorem C28_store_roundtrip : forall c t0 ops,
+  wf c ops = true -> forall h, no_inj ops = true ->
+  let spec := vis_anns c (hist_anns t0 ops) h (end_time t0 ops) in
+  nodup_ident (get_full c (fst (run c (init_at t0) ops)) h) = true /\
+  forall i cf, In (i, cf) (get_full c (fst (run c (init_at t0) ops)) h) <->
+               (exists c0, In (i, c0) spec) /\ (cf = true <-> In (i, true) spec).
+Proof. exact Proof.C28.store_roundtrip. Qed.
+Print Assumptions C28_store_roundtrip.
+
+(* ... and whatever else is in the sets (entries of other writers, undecodable garbage):
+   no announcement within reach is lost or loses its completion *)
+Theorem C28_store_never_loses : forall c t0 ops,
+  wf c ops = true -> forall h i c0,
+  In (i, c0) (vis_anns c (hist_anns t0 ops) h (end_time t0 ops)) ->
+  nodup_ident (get_full c (fst (run c (init_at t0) ops)) h) = true /\
+  exists c1, In (i, c1) (get_full c (fst (run c (init_at t0) ops)) h) /\ (c0 = true -> c1 = true).
+Proof. exact Proof.C28.store_never_loses. Qed.
+Print Assumptions C28_store_never_loses.
+
+(* a read cut short by n: for EVERY order in which windows are visited and EVERY answer of
+   SRANDMEMBER (batches of visible members), the result has at most n peers, one per identity,
+   each with an identity and flag that an announcement within reach carried *)
+Theorem C28_store_sample : forall c t0 ops,
+  wf c ops = true -> forall h n orc res, no_inj ops = true ->
+  (forall ss, In ss orc ->
+     incl ss (visible_members c (view (fst (run c (init_at t0) ops))) h (now (fst (run c (init_at t0) ops))))) ->
+  sample_run n [] orc = Some res ->
+  legal_sample n (vis_anns c (hist_anns t0 ops) h (end_time t0 ops)) res = true.
+Proof. exact Proof.C28.store_sample. Qed.
+Print Assumptions C28_store_sample.
+
+Theorem C28_legal_sample_means : forall n entries res,
+  legal_sample n entries res = true ->
+  Z.of_nat (length res) <= Z.max n 0 /\ nodup_ident res = true /\ incl res entries.
+Proof. exact Proof.C28.legal_sample_spec. Qed.
+Print Assumptions C28_legal_sample_means.
+
+(* executable form used on observed traces (oks: the sampled results carried by the history
+   are results the loop can produce) *)
+Theorem C28_check_sound : forall c t0 ops,
+  oks (snd (run c (init_at t0) ops)) = true ->
+  C28_check c t0 ops (snd (run c (init_at t0) ops)) = true.
+Proof. exact Proof.C28.check_sound. Qed.
+Print Assumptions C28_check_sound.
+
+(* ---- the pinned commit (len(parts) != 4): refuted, with the strongest true statement ---- *)
+Theorem C28_old_decoder_ipv6_refuted :
+  exists p, valid_peer p = true /\ deserialize_old (serialize p) = None.
+Proof. exact Proof.C28.old_decoder_ipv6_refuted. Qed.
+Print Assumptions C28_old_decoder_ipv6_refuted.
+
+(* every address containing ':' is dropped ... *)
+Theorem C28_old_decoder_drops_colon : forall p,
+  valid_peer p = true -> In 58%N (i_ip (fst p)) -> deserialize_old (serialize p) = None.
+Proof. exact Proof.C28_codec.old_drops_colon. Qed.
+Print Assumptions C28_old_decoder_drops_colon.
+
+(* ... and exactly the others round-trip *)
+Theorem C28_old_roundtrip_partial : forall p,
+  valid_peer p = true -> ~ In 58%N (i_ip (fst p)) -> deserialize_old (serialize p) = Some p.
+Proof. exact Proof.C28_codec.old_roundtrip_notin. Qed.
+Print Assumptions C28_old_roundtrip_partial.
+
+(* end to end: an announced IPv6 peer within reach is not returned *)
+Theorem C28_old_store_loses_ipv6_refuted :
+  exists c t0 ops h p,
+    wf c ops = true /\ no_inj ops = true /\
+    In p (vis_anns c (hist_anns t0 ops) h (end_time t0 ops)) /\
+    get_full_old c (fst (run c (init_at t0) ops)) h = [].
+Proof. exact Proof.C28.old_store_loses_ipv6_refuted. Qed.
+Print Assumptions C28_old_store_loses_ipv6_refuted.
+
+(* ---- non-vacuity ---- *)
+Definition ex_id : list N := [1;8;15;22;29;36;43;50;57;64;71;78;85;92;99;106;113;120;127;134]%N.
+Definition ex_id2 : list N := [0;10;68;75;82;89;96;103;110;117;124;131;138;145;152;159;166;173;180;255]%N.
+Definition ex_hash : list N := [3;14;25;36;47;58;69;80;91;102;113;124;135;146;157;168;179;190;201;212]%N.
+Definition ex_v6 : ident := mkid ex_id [50;48;48;49;58;100;98;56;58;58;49]%N 16001.      (* "2001:db8::1" *)
+Definition ex_host : ident := mkid ex_id2 [108;111;99;97;108;104;111;115;116]%N (-1).   (* "localhost", port -1 *)
+Definition ex_cfg : cfg := mkcfg 10 3.
+(* announce v6 (incomplete), next window: v6 complete and host; two windows later both still
+   within reach; one more window and the first announcement is gone *)
+Definition ex_ops : list op :=
+  [Upd ex_hash (ex_v6, false); Adv 10; Upd ex_hash (ex_v6, true); Upd ex_hash (ex_host, false);
+   Get ex_hash 1 [(ex_host, false)]; Adv 10].
+
+Example C28_nonvacuous_codec :
+  valid_peer (ex_v6, true) = true /\ valid_peer (ex_host, false) = true /\
+  deserialize (serialize (ex_v6, true)) = Some (ex_v6, true) /\
+  deserialize_old (serialize (ex_v6, true)) = None.
+Proof. vm_compute. repeat split; reflexivity. Qed.
+
+Example C28_nonvacuous_store :
+  wf ex_cfg ex_ops = true /\ no_inj ex_ops = true /\
+  oks (snd (run ex_cfg (init_at 1700000005) ex_ops)) = true /\
+  vis_anns ex_cfg (hist_anns 1700000005 ex_ops) ex_hash (end_time 1700000005 ex_ops)
+    = [(ex_v6, false); (ex_v6, true); (ex_host, false)] /\
+  get_full ex_cfg (fst (run ex_cfg (init_at 1700000005) ex_ops)) ex_hash
+    = [(ex_v6, true); (ex_host, false)] /\
+  get_full_old ex_cfg (fst (run ex_cfg (init_at 1700000005) ex_ops)) ex_hash = [(ex_host, false)].
+Proof. vm_compute. repeat split; reflexivity. Qed.
+
+Example C28_nonvacuous_windows :
+  cfg_ok ex_cfg = true /\ visible ex_cfg 1700000005 1700000029 = true /\
+  visible ex_cfg 1700000005 1700000030 = false /\ visible ex_cfg (-15) 5 = true /\
+  windows ex_cfg 1700000025 = [1700000020; 1700000010; 1700000000] /\
+  expire_at ex_cfg (curw ex_cfg 1700000005) = 1700000030.
+Proof. vm_compute. repeat split; reflexivity. Qed.
+
+Example C28_nonvacuous_sample :
+  sample_run 1 [] [[serialize (ex_host, false)]; [serialize (ex_v6, true)]] = Some [(ex_host, false)] /\
+  sample_run 2 [] [[serialize (ex_v6, false)]; [serialize (ex_v6, true)]] = Some [(ex_v6, true)].
+Proof. vm_compute. split; reflexivity. Qed.
